@@ -200,7 +200,40 @@ class Frontend:
         self.main.entry = first
 
     # ------------------------------------------------------------------ statements: each returns entry label; continues to `k`
+    @staticmethod
+    def _acq_rel(call_stmt, meth):
+        """`X.acquire()` / `X.release()` as an expression statement -> the name X, else None."""
+        if (isinstance(call_stmt, ast.Expr) and isinstance(call_stmt.value, ast.Call) and isinstance(call_stmt.value.func, ast.Attribute)
+                and call_stmt.value.func.attr == meth and isinstance(call_stmt.value.func.value, ast.Name)
+                and not call_stmt.value.args and not call_stmt.value.keywords):
+            return call_stmt.value.func.value.id
+        return None
+
+    def _with_from_acquire(self, stmts):
+        """X.acquire(); try: BODY finally: X.release()   ==>   with X: BODY      (the same critical section, written out)"""
+        out, i = [], 0
+        while i < len(stmts):
+            s = stmts[i]
+            x = self._acq_rel(s, "acquire")
+            if x is not None and i + 1 < len(stmts):
+                t = stmts[i + 1]
+                if (isinstance(t, ast.Try) and not t.handlers and not t.orelse and len(t.finalbody) == 1
+                        and self._acq_rel(t.finalbody[0], "release") == x):
+                    w = ast.With(items=[ast.withitem(context_expr=ast.Name(id=x, ctx=ast.Load()), optional_vars=None)], body=t.body,
+                                 lineno=s.lineno, col_offset=0)
+                    ast.fix_missing_locations(w)
+                    note = f"line {s.lineno}: {x}.acquire() / try / finally {x}.release() read as `with {x}:`"
+                    if note not in self.notes:
+                        self.notes.append(note)
+                    out.append(w)
+                    i += 2
+                    continue
+            out.append(s)
+            i += 1
+        return out
+
     def block(self, stmts, ctx, k):
+        stmts = self._with_from_acquire(list(stmts))
         nxt = k
         for s in reversed(stmts):
             nxt = self.stmt(s, ctx, nxt)
